@@ -459,6 +459,49 @@ type c19LookupObs struct {
 	Log      []srv.Req `json:"log,omitempty"`
 }
 
+// c19PastExtremes / c19FutureExtremes are query instants far outside the time any state was
+// written at: "before all" and "after all" must hold for them as for any other instant. They
+// include the edges of the int64 nanosecond range (1677-09-21T00:12:43.145224192Z …
+// 2262-04-11T23:47:16.854775807Z), the zero time.Time and seconds ±2^40 from the epoch.
+var c19PastExtremes = []struct {
+	name string
+	t    time.Time
+}{
+	{"zero", time.Time{}},
+	{"y1000", time.Date(1000, 6, 15, 12, 0, 0, 0, time.UTC)},
+	{"y1500", time.Date(1500, 1, 1, 0, 0, 0, 1, time.UTC)},
+	{"y1677-below-int64ns", time.Date(1677, 9, 21, 0, 12, 43, 0, time.UTC)},
+	{"y1677-above-int64ns", time.Date(1677, 9, 21, 0, 12, 44, 0, time.UTC)},
+	{"y1678", time.Date(1678, 1, 1, 0, 0, 0, 0, time.UTC)},
+	{"unix-2^40", time.Unix(-1<<40, 0).UTC()},
+}
+
+var c19FutureExtremes = []struct {
+	name string
+	t    time.Time
+}{
+	{"y2262-below-int64ns", time.Date(2262, 4, 11, 23, 47, 16, 0, time.UTC)},
+	{"y2262-above-int64ns", time.Date(2262, 4, 11, 23, 47, 17, 0, time.UTC)},
+	{"y2263", time.Date(2263, 1, 1, 0, 0, 0, 0, time.UTC)},
+	{"y2300", time.Date(2300, 2, 28, 12, 0, 0, 0, time.UTC)},
+	{"y3000", time.Date(3000, 1, 1, 0, 0, 0, 0, time.UTC)},
+	{"y9999", time.Date(9999, 12, 31, 23, 59, 59, 999999999, time.UTC)},
+	{"unix+2^40", time.Unix(1<<40, 0).UTC()},
+}
+
+const c19NExt = 7 // len of both lists
+
+// c19RandV draws the variant of a query: place inside a gap (v%3), representation of the
+// instant (v/3%6) and, for the positions before all / after all, in half of the cases one of
+// the extreme instants (v/18, 0 = none).
+func c19RandV(r *gen.R, q, k int) int {
+	v := r.Intn(3) + 3*r.Intn(len(c19Reps))
+	if (q == 0 || q == 2*k) && r.Chance(0.5) {
+		v += 18 * (1 + r.Intn(c19NExt))
+	}
+	return v
+}
+
 // c19Reps are representations of one instant as a time.Time: the API takes a time.Time, and
 // values that are Equal need not be == (location pointer, monotonic reading).
 var c19Reps = []string{"utc", "unix", "+05:30", "-08:00", "local", "mono"}
@@ -492,6 +535,15 @@ func c19Lookup(res *fw.Result, p *srv.Planet, sd *srv.Dir, d *c19Dir, q, v int, 
 	// v carries the place inside a gap (v%3) and the representation of the instant (v/3)
 	rep := v / 3 % len(c19Reps)
 	t := d.queryTime(q, v%3)
+	extName := ""
+	if ext := v / 18; ext > 0 && ext <= c19NExt {
+		switch q {
+		case 0:
+			t, extName = c19PastExtremes[ext-1].t, c19PastExtremes[ext-1].name
+		case 2 * len(d.present):
+			t, extName = c19FutureExtremes[ext-1].t, c19FutureExtremes[ext-1].name
+		}
+	}
 	tq := c19Rep(t, rep) // same instant, another time.Time value
 	want := d.expected(t)
 	budget, rng, missing := d.budget(t, windowed)
@@ -594,6 +646,9 @@ func c19Lookup(res *fw.Result, p *srv.Planet, sd *srv.Dir, d *c19Dir, q, v int, 
 		mc = 12 + c19Log2Ceil(uint64(mc))
 	}
 	pos := c19PosClass(q, k)
+	if extName != "" {
+		pos += "!" + extName
+	}
 	if q%2 == 1 { // query equal to a state's time: the representation of the instant matters
 		pos += "@" + c19Reps[rep]
 	}
@@ -720,6 +775,16 @@ func c19ExecEnum(res *fw.Result, p *srv.Planet, stream string, n, lo, hi int) {
 					key += "@" + c19Reps[rep]
 				}
 				obs = c19Lookup(res, p, sd, d, q, (mask+q)%3+3*rep, key, "enum", false)
+			}
+			// before all / after all: also one of the extreme instants, rotating with the subset
+			if q == 0 || q == 2*k {
+				ext := 1 + (mask+n)%c19NExt
+				name := c19PastExtremes[ext-1].name
+				if q != 0 {
+					name = c19FutureExtremes[ext-1].name
+				}
+				key := fmt.Sprintf("C19/lookup/stream=%s/N=%d/S=%s/t=q%d!%s", stream, n, c19SetString(d.present), q, name)
+				c19Lookup(res, p, sd, d, q, 3*((mask+q)%len(c19Reps))+18*ext, key, "enum", false)
 			}
 			if first == nil && mask == lo+(hi-lo)/2 && q == k {
 				first = obs
@@ -861,7 +926,7 @@ func c19ExecRand(res *fw.Result, p *srv.Planet, stream string, seed uint64) {
 		sd := d.serverDir()
 		k := len(d.present)
 		for _, q := range c19Positions(r, k, 16) {
-			v := r.Intn(3) + 3*r.Intn(len(c19Reps))
+			v := c19RandV(r, q, k)
 			key := fmt.Sprintf("C19/lookup/stream=%s/ts=%x/step=%d/S=%s/t=q%d.%d", stream, d.tsid, d.step, c19SetString(d.present), q, v)
 			obs := c19Lookup(res, p, sd, d, q, v, key, "rand", false)
 			if sample == nil && q > 2 {
@@ -920,7 +985,7 @@ func c19ExecOffset(res *fw.Result, p *srv.Planet, stream string, seed uint64, si
 			if q <= 1 && !short {
 				continue
 			}
-			v := r.Intn(3) + 3*r.Intn(len(c19Reps))
+			v := c19RandV(r, q, k)
 			key := fmt.Sprintf("C19/lookup/stream=%s/ts=%x/step=%d/S=%s/t=q%d.%d", stream, d.tsid, d.step, c19SetString(d.present), q, v)
 			obs := c19Lookup(res, p, sd, d, q, v, key, "offset", true)
 			if sample == nil && q > 2 {
@@ -1058,7 +1123,7 @@ func c19ExecSkew(res *fw.Result, p *srv.Planet, stream string, seed uint64, pi i
 		}
 		sort.Ints(order)
 		for _, q := range order {
-			v := r.Intn(3) + 3*r.Intn(len(c19Reps))
+			v := c19RandV(r, q, kk)
 			key := fmt.Sprintf("C19/lookup/stream=%s/skew=%s/pause=%d/aux=%d/N=%d/missing=%s/t=q%d.%d", stream, profile, pause, aux, n, c19SetString(miss), q, v)
 			obs := c19Lookup(res, p, sd, d, q, v, key, "skew-"+profile, false)
 			obs.Present = fmt.Sprintf("1-%d without {%s}", n, c19SetString(miss))
@@ -1168,7 +1233,7 @@ func c19ExecGrow(res *fw.Result, p *srv.Planet, stream string, seed uint64) {
 			}
 			sort.Ints(order)
 			for _, q := range order {
-				v := r.Intn(3) + 3*r.Intn(len(c19Reps))
+				v := c19RandV(r, q, k)
 				key := fmt.Sprintf("C19/lookup/stream=%s/ts=%x/step=%d/grow=%d/hist=%s/t=q%d.%d", stream, d.tsid, d.step, step, hist, q, v)
 				obs := c19Lookup(res, p, sd, &d, q, v, key, fmt.Sprintf("grow%d", min(step, 2)), false)
 				if sample == nil && step == 1 && q == 2*k {
@@ -1229,7 +1294,7 @@ func c19ExecConn(res *fw.Result, p *srv.Planet, stream string, seed uint64, conn
 			if c19Session.hung {
 				break
 			}
-			v := r.Intn(3) + 3*r.Intn(len(c19Reps))
+			v := c19RandV(r, q, k)
 			key := fmt.Sprintf("C19/lookup/stream=%s/ts=%x/step=%d/conns=%d/S=%s/t=q%d.%d", stream, d.tsid, d.step, conns, c19SetString(d.present), q, v)
 			obs := c19Lookup(res, p, sd, d, q, v, key, fmt.Sprintf("conn%d", conns), false)
 			if sample == nil && obs.Requests > 6 {
@@ -1596,7 +1661,7 @@ func init() {
 			"(current always present) x every query position (before first, at each, between each, after last) — independent of the seed. " +
 			"rand: ranges up to 400 with random density and gap runs next to the probe sequence of a binary search; offset: windows at high " +
 			"offsets crossing directory levels with everything below missing; format: single state files in each documented layout; data: " +
-			"sequence-numbered data files; skew: gap-free and sparse-gap ranges of 1 000 to 100 000 states with skewed timestamp assignments (pauses, exponential spacing, clusters, bursts). Minute state files have realistic sizes (txnActiveList up to thousands of ids, 1-64 KiB), key orders, unknown keys, comments, CRLF (format); base URLs with percent-escaped path prefixes; grow: one Datasource reused while the directory advances inside one base URL; conn: connection-limited client and 404s with bodies; every response body handed to the library is tracked. Signature = kind/stream/log2(range)/missing-count class/query position class (for queries equal to a state's time also the representation of the instant: UTC, time.Unix, fixed zones, Local, monotonic reading)/first-state present or " +
+			"sequence-numbered data files; skew: gap-free and sparse-gap ranges of 1 000 to 100 000 states with skewed timestamp assignments (pauses, exponential spacing, clusters, bursts). Minute state files have realistic sizes (txnActiveList up to thousands of ids, 1-64 KiB), key orders, unknown keys, comments, CRLF (format); base URLs with percent-escaped path prefixes; grow: one Datasource reused while the directory advances inside one base URL; conn: connection-limited client and 404s with bodies; every response body handed to the library is tracked; before-all / after-all queries also use extreme instants (zero time, years 1000..9999, the edges of the int64 nanosecond range, Unix(+-2^40)). Signature = kind/stream/log2(range)/missing-count class/query position class (for queries equal to a state's time also the representation of the instant: UTC, time.Unix, fixed zones, Local, monotonic reading)/first-state present or " +
 			"missing (prefix-only or scattered gaps); a signature is non-trivial when a lookup was actually executed against the fake server.",
 		Assumptions: []string{
 			"The fake server models the planet layout from its documentation: /replication/<stream>/state.txt (state.yaml for changesets), NNN/NNN/NNN.state.txt, .osc.gz / .osm.gz; timestamps strictly increase with the sequence number; the current state is the newest present file.",
